@@ -105,6 +105,20 @@ def analyse(fn) -> Tuple[Optional[Set[str]], Set[str]]:
     return {n for n in stores - blocked if not n.startswith('__')}, every
 
 
+class _CanonCompare(ast.NodeTransformer):
+    """the lexicographically smaller of a comparison and its mirror image"""
+
+    def visit_Compare(self, node):
+        self.generic_visit(node)
+        if len(node.ops) == 1 and type(node.ops[0]) in _MIRROR:
+            m = ast.Compare(left=node.comparators[0],
+                            ops=[_MIRROR[type(node.ops[0])]()],
+                            comparators=[node.left])
+            if ast.unparse(m) < ast.unparse(node):
+                return m
+        return node
+
+
 def _binding_shapes(fn, plain: Set[str]) -> List[Tuple[str, str]]:
     """[(name, shape hash)] of the first binding of every plain local, in
     source order; shapes do not mention what any plain local is called"""
@@ -114,17 +128,15 @@ def _binding_shapes(fn, plain: Set[str]) -> List[Tuple[str, str]]:
             par[id(ch)] = p
 
     def masked(expr) -> str:
+        # text of the bound expression that depends neither on what plain
+        # locals are called nor on which way round a comparison is written
         if expr is None:
             return '-'
-        hit = [(y, y.id) for y in ast.walk(expr)
-               if isinstance(y, ast.Name) and y.id in plain]
-        for y, _ in hit:
-            y.id = '_'
-        try:
-            return ast.unparse(expr)
-        finally:
-            for y, was in hit:
-                y.id = was
+        e = ast.parse(ast.unparse(expr), mode='eval').body
+        for y in ast.walk(e):
+            if isinstance(y, ast.Name) and y.id in plain:
+                y.id = '_'
+        return ast.unparse(_CanonCompare().visit(e))
 
     def shape(name_node) -> str:
         trail = []
@@ -161,14 +173,25 @@ def _binding_shapes(fn, plain: Set[str]) -> List[Tuple[str, str]]:
              if isinstance(x, ast.Name) and x.id in plain and
              isinstance(x.ctx, ast.Store)]
     sites.sort(key=lambda x: (x.lineno, x.col_offset))
-    out, seen = [], set()
+    # all bindings of a name, as a set: which of two branches comes first
+    # in the text must not matter
+    shapes: Dict[str, Set[str]] = {}
+    order: List[str] = []
     for x in sites:
-        if x.id in seen:
-            continue
-        seen.add(x.id)
-        h = hashlib.sha1(shape(x).encode()).hexdigest()[:12]
-        out.append((x.id, h))
-    return out
+        if x.id not in shapes:
+            shapes[x.id] = set()
+            order.append(x.id)
+        shapes[x.id].add(shape(x))
+    # ties between locals bound the same way are broken by how often the
+    # local is read, before falling back on the order in the text
+    loads: Dict[str, int] = {}
+    for x in ast.walk(fn):
+        if isinstance(x, ast.Name) and isinstance(x.ctx, ast.Load) and \
+                x.id in plain:
+            loads[x.id] = loads.get(x.id, 0) + 1
+    return [(n, hashlib.sha1(('\n'.join(sorted(shapes[n])) +
+                              f'\nloads={loads.get(n, 0)}').encode())
+             .hexdigest()[:12]) for n in order]
 
 
 def table_of(tree: ast.AST) -> Dict[str, List[List[str]]]:
